@@ -17,10 +17,12 @@ for m in sorted(glob.glob(os.path.join(VERIF, "seeded", "*", "meta.json"))):
                 first = line[:160]
                 break
     checks = "; ".join("%s: %s" % (k, v["result"]) for k, v in sorted(d.get("checks", {}).items()))
-    rows.append("| %s | %s | %s | %s | %s |" % (d["name"], d["property"], "yes" if d.get("confirmed") else "NO", checks, first.replace("|", "/")))
+    re = "; ".join("%s: %s (%s)" % (r["check"], r["result"], r.get("note", "")[:120]) for r in d.get("rechecks", []))
+    rows.append("| %s | %s | %s | %s | %s | %s |" % (d["name"], d["property"], "yes" if d.get("confirmed") else "NO", checks, re.replace("|", "/"), first.replace("|", "/")))
 with open(os.path.join(VERIF, "seeded", "REPORT.md"), "w") as f:
     f.write("# Seeded changes (written by independent sub-agents) and the checks' verdicts\n\n")
     f.write("confirmed = the change applies, the library builds, the repository's 34 tests pass, the demonstration fails with the change and passes without it.\n\n")
-    f.write("| seed | property | confirmed | checks | what it is |\n|---|---|---|---|---|\n")
+    f.write("checks = verdicts when the change was first evaluated; after strengthening = re-evaluation (tools/seedrecheck.py) once a miss had led to a stronger check.\n\n")
+    f.write("| seed | property | confirmed | checks | after strengthening | what it is |\n|---|---|---|---|---|---|\n")
     f.write("\n".join(rows) + "\n")
-print("\n".join(rows))
+print(len(rows), "seeds;", sum(1 for r in rows if "MISSED" in r.split("|")[4]), "with a MISSED verdict at first evaluation")
